@@ -57,7 +57,7 @@ pub open spec fn head(s: Seq<u8>) -> Option<Head> {
         if ai < 24 {
             Some(Head { mt, ai, arg: ai as u64, len: 1 })
         } else if ai == 24 {
-            if s.len() < 2 { None } else { Some(Head { mt, ai, arg: be(s, 1, 1) as u64, len: 2 }) }
+            if s.len() < 2 { None } else { Some(Head { mt, ai, arg: s[1] as u64, len: 2 }) }
         } else if ai == 25 {
             if s.len() < 3 { None } else { Some(Head { mt, ai, arg: be(s, 1, 2) as u64, len: 3 }) }
         } else if ai == 26 {
@@ -95,7 +95,8 @@ pub open spec fn is_break(h: Head) -> bool { h.mt == 7 && h.ai == 31 }
 
 /// RFC 8949 3.3: "an encoder MUST NOT issue two-byte sequences that start with 0xf8 and continue
 /// with a byte less than 0x20; such sequences are not well-formed".  `strict == false` is the
-/// spec with exactly this one rule removed (known finding F2, see known_findings.json).
+/// spec with exactly this one rule removed (the crate's behaviour before fix F2; kept as a parameter so the
+/// two can be compared).
 pub open spec fn simple_ok(h: Head, strict: bool) -> bool {
     !(strict && h.mt == 7 && h.ai == 24 && h.arg < 32)
 }
@@ -541,6 +542,19 @@ pub struct DecState {
 
 pub uninterp spec fn dv<R: ciborium_io::Read>(d: &Decoder<R>) -> DecState;
 
+/// Ghost view of the decoder's byte offset (only differences of it are used: the width of a head).
+pub uninterp spec fn dec_off<R: ciborium_io::Read>(d: &Decoder<R>) -> nat;
+
+/// Bytes a pushed-back header occupies when it is pulled again (ciborium-ll re-encodes it in its
+/// shortest form); only needed for simple values.
+pub open spec fn simple_min_len(s: u8) -> nat { if s < 24 { 1 } else { 2 } }
+
+/// A header that may sit in the push-back buffer: never a simple value 24..31 (those only arise from
+/// the two-byte form `f8 18`..`f8 1f`, which the decoder rejects before pushing back).
+pub open spec fn buf_ok(st: DecState) -> bool {
+    st.buf matches Some(Header::Simple(s)) ==> !(24 <= s < 32)
+}
+
 /// Termination measure of the decoder functions.
 pub open spec fn msr(st: DecState) -> nat {
     st.rest.len() + (if st.buf is Some { 1nat } else { 0nat })
@@ -588,13 +602,16 @@ pub assume_specification<R: ciborium_io::Read>[ Decoder::<R>::pull ](d: &mut Dec
     ensures
         match dv(old(d)).buf {
             Some(h) => r == Ok::<Header, ciborium_ll::Error<R::Error>>(h)
-                && dv(final(d)) == (DecState { rest: dv(old(d)).rest, buf: None }),
+                && dv(final(d)) == (DecState { rest: dv(old(d)).rest, buf: None })
+                && dec_off(final(d)) >= dec_off(old(d))
+                && (h matches Header::Simple(s) ==> dec_off(final(d)) == dec_off(old(d)) + simple_min_len(s)),
             None => match head(dv(old(d)).rest) {
                 None => r is Err,
                 Some(hd) => match hdr_of(hd) {
                     None => r is Err,
                     Some(h) => r == Ok::<Header, ciborium_ll::Error<R::Error>>(h)
-                        && dv(final(d)) == (DecState { rest: dv(old(d)).rest.skip(hd.len as int), buf: None }),
+                        && dv(final(d)) == (DecState { rest: dv(old(d)).rest.skip(hd.len as int), buf: None })
+                        && dec_off(final(d)) == dec_off(old(d)) + hd.len,
                 },
             },
         };
@@ -609,7 +626,9 @@ pub assume_specification<R: ciborium_io::Read>[ Decoder::<R>::push ](d: &mut Dec
 // offset(): only used for the payload of DecodeError::Syntax, which C11 does not constrain.
 pub assume_specification<R: ciborium_io::Read>[ Decoder::<R>::offset ](d: &mut Decoder<R>) -> (r: usize)
     ensures
-        dv(final(d)) == dv(old(d));
+        dv(final(d)) == dv(old(d)),
+        dec_off(final(d)) == dec_off(old(d)),
+        r as nat == dec_off(old(d));
 
 // <Decoder<R> as ciborium_io::Read>::read_exact asserts that nothing is buffered; it fills the
 // whole buffer or fails (in-memory source: fails exactly when fewer bytes remain).
